@@ -286,9 +286,44 @@ fn corpus() -> Vec<Raw> {
     ]
 }
 
+fn tlv_spots(input: &[u8]) -> Vec<usize> {
+    let mut spots: Vec<usize> = vec![];
+    let mut i = 74usize;
+    while i + 4 <= input.len() {
+        spots.push(i);
+        let l = u16::from_be_bytes([input[i + 2], input[i + 3]]) as usize;
+        if input[i] == 0x50 { let mut j = i + 4; while j + 4 <= (i + 4 + l).min(input.len()) { spots.push(j); j += 4 + u16::from_be_bytes([input[j + 2], input[j + 3]]) as usize; } }
+        i += 4 + l;
+    }
+    spots
+}
+
+/// every item and user sub-item of a sample A-ASSOCIATE-RQ and -AC with every small / off-by-one declared length
+fn pdu_length_corpus() -> Vec<Raw> {
+    let mut out = vec![];
+    let mut r = Rng::new(7);
+    let mut seen = 0;
+    while seen < 2 {
+        let b = pdu_seeds(&mut r);
+        if b.len() > 80 && b[0] == (seen as u8 + 1) {
+            seen += 1;
+            for at in tlv_spots(&b) {
+                let old = u16::from_be_bytes([b[at + 2], b[at + 3]]);
+                for new in [0u16, 1, 2, 3, 5, old.wrapping_sub(1), old.wrapping_add(1)] {
+                    let mut v = b.clone();
+                    v[at + 2..at + 4].copy_from_slice(&new.to_be_bytes());
+                    out.push(Raw { entry: if out.len() % 2 == 0 { "pdu" } else { "pdu_strict" }, ts: "", input: v, valid_seed: false });
+                }
+            }
+        }
+    }
+    out
+}
+
 pub fn gen_cases(ctx: &Ctx) -> Vec<Raw> {
     let mut r = Rng::new(ctx.seed);
     let mut out = corpus();
+    out.extend(pdu_length_corpus());
     while out.len() < ctx.n {
         let entry = ENTRIES[out.len() % ENTRIES.len()];
         let mut rr = r.fork();
